@@ -8,6 +8,8 @@ import (
 	"strings"
 
 	"asverif/internal/gf"
+
+	"golang.org/x/tools/go/cfg"
 	"asverif/internal/load"
 )
 
@@ -30,7 +32,178 @@ func runC02(c *Ctx) {
 	c.predicateRepairAgreement()
 	if r := c.ReconcileRoles(); r != nil {
 		c.walkCoversPartition(r, "C02.6-update-walk-reaches-down-to-partition")
+		c.updateWalkReached(r)
 	}
+	c.adoptionTrigger()
+}
+
+// updateWalkReached: once scaling is done, the update walk is entered unless the strategy is
+// OnDelete (or the set is being deleted): a reconcile that returns before the walk for any other
+// reason leaves outdated pods in place and goes quiet with them.
+func (c *Ctx) updateWalkReached(r *Reconcile) {
+	if r.KLoop == nil || r.ULoop == nil {
+		c.Fail("scale-down loop / update walk not resolved")
+		return
+	}
+	fn, an := r.Fn, r.An
+	done := loopBlock(fn, r.KLoop, cfg.KindForDone)
+	if done == nil || len(done.Nodes) == 0 {
+		c.Fail("block after the scale-down loop not found")
+		return
+	}
+	start := an.In[done.Index].Assume(c.Want(fn, r.KLoop.End(), `$1.Spec.UpdateStrategy.Type != "OnDelete"`, r.Set))
+	aU := fn.FromUntil(done.Nodes[0], start, r.ULoop)
+	n := 0
+	ast.Inspect(r.FI.Decl.Body, func(x ast.Node) bool {
+		switch y := x.(type) {
+		case *ast.FuncLit:
+			return false
+		case *ast.ReturnStmt:
+			if y.Pos() < r.KLoop.End() || y.Pos() > r.ULoop.Pos() {
+				return true
+			}
+			n++
+			st := aU.StateBefore(y)
+			name := fmt.Sprintf("%s: return[%s] between scaling and the update walk", r.FI.Obj.Name(), c.P.Pos(y.Pos()))
+			if !st.Reachable() {
+				c.OK("C02.7-update-walk-reached", name, y.Pos(), "unreachable unless the strategy is OnDelete")
+				return true
+			}
+			_, wit := st.Implies(gf.False)
+			c.Bad("C02.7-update-walk-reached", name, y.Pos(), "with a strategy other than OnDelete the reconcile can return before the update walk: outdated pods are left in place and the controller goes quiet; facts on one such path: "+clip(wit, 500))
+		}
+		return true
+	})
+	c.Floor("C02.7-returns-before-the-walk", n, 1)
+}
+
+// adoptionTrigger: the revision-adoption work (an uncached read of the set and revision writes) is
+// started only when some listed revision has no controller; a trigger that also fires for revisions
+// that stay as they are makes every reconcile write.
+func (c *Ctx) adoptionTrigger() {
+	fi := c.Func(load.CtrlPkg, "StatefulSetController.adoptOrphanRevisions")
+	if fi == nil {
+		return
+	}
+	// (facts about the gate are kept although the gate variable is not read again)
+	kfn := c.E.FnOf(fi)
+	kfn.KeepDead = true
+	an := kfn.Analyze(nil)
+	kfn.KeepDead = false
+	info := fi.Pkg.TypesInfo
+	// the writes and the uncached read of this function
+	var gated []ast.Node
+	for _, s := range c.sitesOf(fi) {
+		if s.Class == "read" && s.Resource == "statefulsets.pingcap" {
+			gated = append(gated, s.Top)
+		}
+	}
+	for _, call := range callsIn(fi.Decl.Body, false) {
+		for _, t := range c.G.CallTargets(info, call) {
+			if len(c.G.Effects(t, "write")) > 0 {
+				gated = append(gated, call)
+			}
+		}
+	}
+	c.Floor("C02.8-gated-adoption-work", len(gated), 2)
+	// the gate: a boolean (a local flag, or the result of a helper the engine expands) that holds at every
+	// gated site; it is only ever set to something other than false where some listed revision has just
+	// been seen without a controller
+	fn := c.E.FnOf(fi)
+	cands := map[types.Object]int{}
+	n := 0
+	for _, g := range gated {
+		st := an.StateAtExpr(g.(*ast.CallExpr))
+		if !st.Reachable() {
+			continue
+		}
+		n++
+		here := map[types.Object]bool{}
+		for i, d := range st.D {
+			cur := map[types.Object]bool{}
+			for _, l := range d.L {
+				if !l.Neg && l.A.Op == "b" && l.A.L.K == 'v' && l.A.L.Obj != nil {
+					cur[l.A.L.Obj] = true
+				}
+			}
+			if i == 0 {
+				here = cur
+			} else {
+				for o := range here {
+					if !cur[o] {
+						delete(here, o)
+					}
+				}
+			}
+		}
+		for o := range here {
+			cands[o]++
+		}
+	}
+	orphanSeen := func(st gf.State) (bool, string) {
+		for _, d := range st.D {
+			found := false
+			for _, l := range d.L {
+				if l.Neg || l.A.Op != "eq" {
+					continue
+				}
+				for _, pair := range [][2]*gf.Term{{l.A.L, l.A.R}, {l.A.R, l.A.L}} {
+					if pair[1].K == 'n' && pair[0].K == 'k' && (strings.HasSuffix(pair[0].S, "v1.GetControllerOf") || strings.HasSuffix(pair[0].S, "v1.GetControllerOfNoCopy")) {
+						found = true
+					}
+				}
+			}
+			if !found {
+				return false, d.String()
+			}
+		}
+		return st.Reachable(), ""
+	}
+	good := false
+	var why string
+	var flags []types.Object
+	for o, k := range cands {
+		if k == n {
+			flags = append(flags, o)
+		}
+	}
+	sort.Slice(flags, func(i, j int) bool { return flags[i].Name() < flags[j].Name() })
+	if len(flags) == 0 {
+		why = "no boolean gate holds at all of the adoption work"
+	}
+	for _, flag := range flags {
+		okFlag, sets := true, 0
+		for _, b := range fn.CFG.Blocks {
+			if !b.Live {
+				continue
+			}
+			for _, nd := range b.Nodes {
+				as, ok := nd.(*ast.AssignStmt)
+				if !ok || len(as.Lhs) != 1 || len(as.Rhs) != 1 {
+					continue
+				}
+				id, ok := as.Lhs[0].(*ast.Ident)
+				if !ok || info.ObjectOf(id) != flag {
+					continue
+				}
+				if fn.Formula(as.Rhs[0]) == gf.False {
+					continue
+				}
+				sets++
+				if ok2, wit := orphanSeen(an.StateBefore(as)); !ok2 {
+					okFlag = false
+					why = fmt.Sprintf("the gate %s is raised at %s without a revision having been seen without a controller; facts on one such path: %s", flag.Name(), c.P.Pos(as.Pos()), clip(wit, 400))
+				}
+			}
+		}
+		if okFlag && sets > 0 {
+			good = true
+		}
+	}
+	c.Check(good, "C02.8-adoption-only-with-an-orphan", fi.Obj.Name()+": gate of the adoption work", fi.Decl.Pos(),
+		"the uncached read and the revision writes are reached only after some listed revision was seen without a controller",
+		"revision adoption work runs (and writes) on reconciles that have nothing to adopt: "+why)
+	c.Floor("C02.8-adoption-sites-reached", n, 2)
 }
 
 // writeAvoidable computes, for every in-repo function, whether it has a
